@@ -54,6 +54,26 @@ func cName(name string) string {
 // host-call logs and the way the run ended must be equal.  Keys starting
 // "rejected/" or "inconclusive/" are not violations.
 func CompareProgramSource(name, src string) (key, what string, hostCalls int) {
+	return compareProgramSource(name, src, !core.Thorough())
+}
+
+// stripWat runs the dead-code stripper `wa build --optimize` applies (and
+// every arduino/wasm4 build always applies) to the compiler's WAT.
+func stripWat(name, wat string) (string, string) {
+	o := theWorker().Do("watstrip", wk.Src{Name: name, Src: wat})
+	if o.Kind != wk.OK {
+		return "", o.String()
+	}
+	var r struct {
+		Out string `json:"out"`
+	}
+	if err := o.Decode(&r); err != nil {
+		return "", err.Error()
+	}
+	return r.Out, ""
+}
+
+func compareProgramSource(name, src string, strip bool) (key, what string, hostCalls int) {
 	o := theWorker().Do("build", wk.Src{Name: name, Src: src})
 	if o.Kind != wk.OK {
 		return "rejected/build", o.String(), 0
@@ -61,6 +81,13 @@ func CompareProgramSource(name, src string) (key, what string, hostCalls int) {
 	var b built
 	if err := o.Decode(&b); err != nil {
 		return "rejected/build", err.Error(), 0
+	}
+	if strip {
+		out, rej := stripWat(name, b.Wat)
+		if rej != "" {
+			return "rejected/watstrip", rej, 0
+		}
+		b.Wat = out
 	}
 	wasm, err := om.Assemble(b.Wat)
 	if err != nil {
@@ -152,7 +179,7 @@ func TestExamplePrograms(t *testing.T) {
 	s := core.NewStats(prop, "ExamplePrograms")
 	defer s.Flush()
 	defer theWorker().Close()
-	s.Rule("enumeration of the single-file programs under waroot/examples (quick: the cheap ones), compiled by the repository's compiler; the compiler's WAT is (1) assembled and run on wazero under a recording syscall_js host and (2) translated by wat2c, built with gcc -O2 and the fixed host_prog.c; host-call logs (name, raw argument bits, printed bytes) and the end of the run must be equal; non-trivial = >= 5 host calls compared")
+	s.Rule("enumeration of the single-file programs under waroot/examples (quick: the cheap ones), compiled by the repository's compiler (quick tier: followed by the dead-code stripper of `wa build --optimize`, which keeps gcc's work small; thorough: the full 30k-line runtime); the WAT is (1) assembled and run on wazero under a recording syscall_js host and (2) translated by wat2c, built with gcc -O2 and the fixed host_prog.c; host-call logs (name, raw argument bits, printed bytes) and the end of the run must be equal; non-trivial = >= 5 host calls compared")
 	sh, n := core.Shard()
 	k := 0
 	for _, p := range om.ExamplePrograms() {
